@@ -34,12 +34,12 @@ def run(ck, prog):
         "linear feasibility on every subscript of the reduced sequence.")
     ck.assumptions += ["'positions strictly increasing within 1..N' and 'values in [0,1]' are NOT decided",
                        "window, step and word sizes are positive integers"]
-    _dispatch(ck, prog)
-    _layers(ck, prog)
+    ck.attempt(_dispatch, ck, prog)
+    ck.attempt(_layers, ck, prog)
     for m in ("CWF", "LC", "LZW"):
-        _counting_loop(ck, prog, m)
-        _locality(ck, prog, m)
-    _entropy(ck, prog)
+        ck.attempt(_counting_loop, ck, prog, m)
+        ck.attempt(_locality, ck, prog, m)
+    ck.attempt(_entropy, ck, prog)
     ck.attempt(_alphabet_is_sequence_independent, ck, prog)
     ck.floor("measures summarised", ck.analysed.get("measures summarised", 0), 3)
 
@@ -93,13 +93,14 @@ def _layers(ck, prog):
         want = {"alphabetSize": "alphabetSize", "userAlphabet": "userAlphabet", "windowSize": "windowSize", "stepSize": "stepSize"}
         if k == "LC":
             want["wordSize"] = "wordSize"
+        ck.last_forward = None
         bind.check_wrapper(ck, prog, "BIND", SEQ, f.qual, g.key, argmap=want)
-        for r in bind.returns_of(f):
-            if isinstance(r.value, ast.Call):
-                _, b = bind.bind(prog, f, r.value)
-                a = b.get("sequence") if b else None
-                ck.shape(a is not None, "%s: sequence argument bound" % f.qual, f.loc(r))
-                ck.ob("BIND", construct, unparse(a) == "self.seq", expected="sequence = self.seq", found=unparse(a), slot="sequence", where=f.loc(r))
+        ff, fcall = ck.last_forward if getattr(ck, "last_forward", None) else (f, None)
+        for r in ([fcall] if fcall is not None else [r_.value for r_ in bind.returns_of(f) if isinstance(r_.value, ast.Call)]):
+            _, b = bind.bind(prog, ff, r)
+            a = b.get("sequence") if b else None
+            ck.shape(a is not None, "%s: sequence argument bound" % f.qual, ff.loc(r))
+            ck.ob("BIND", construct, unparse(a) == "self.seq", expected="sequence = self.seq", found=unparse(a), slot="sequence", where=ff.loc(r))
         # inside the complexity object: reduce first, measure on the REDUCED sequence with the returned alphabet, index with the original length
         gconstruct = CX_PATH + ":" + g.qual
         m = prog.fn(CX, "SequenceComplexity." + meas)
